@@ -6,6 +6,7 @@ import P9Model.Driver.K4
 import P9Model.Driver.K19
 import P9Model.Driver.KCS
 import P9Model.Driver.KMux
+import P9Model.Driver.K7
 /-!
 Line-protocol driver: reads `<mode> key=value …` lines on stdin, prints the model's
 prediction for each on stdout (one line per line). Core library only (compiled `lean_exe`).
@@ -37,6 +38,13 @@ def step (s : DState) (line : String) : DState × String :=
   | some ("kmapc", _) => (s, kmapc toks)
   | some ("k19", _) => (s, k19 toks)
   | some ("kcs", _) => (s, kcs toks)
+  | some ("k7pair", _) => (s, k7pair toks)
+  | some ("k7flush", _) => (s, k7flush toks)
+  | some ("k7tags", _) => (s, k7tags toks)
+  | some ("k7reuse", _) => (s, k7reuse toks)
+  | some ("k7scen", _) => (s, k7scen toks)
+  | some ("k7rand", _) => (s, k7rand toks)
+  | some ("k7storm", _) => (s, k7storm toks)
   | some ("kpool", _) => (s, kpool toks)
   | some ("kmux", _) => (s, kmux toks)
   | some ("k4", _) => let (x, o) := k4 s.k4 toks; ({ s with k4 := x }, o)
